@@ -36,6 +36,21 @@ Definition any_ok (all : option (list ltree)) (any : list ltree) : bool :=
   | Some l, [r] => existsb (Uspfs.ltree_eqb r) l
   | _, _ => false
   end.
+Definition any_weak (all : option (list ltree)) (any : list ltree) : bool :=
+  match all, any with
+  | Some [], [] => true
+  | Some (_ :: _), [_] => true
+  | _, _ => false
+  end.
+Definition uspfs_eqb_weak (a : out_t) (b : option imp_t) : bool :=
+  match a, b with
+  | (e1, b1, t1, s1), Some ((e2, ea), (b2, ba), t2, s2) =>
+      opt_eqb (set_eqb Uspfs.ltree_eqb) e1 e2 && opt_eqb (set_eqb Uspfs.ltree_eqb) b1 b2
+      && any_weak e1 ea && any_weak b1 ba
+      && list_eqb (list_eqb ext_eqb) t1 t2
+      && list_eqb (fun x y => list_eqb N.eqb (fst x) (fst y) && list_eqb N.eqb (snd x) (snd y)) s1 s2
+  | _, None => false
+  end.
 Definition uspfs_eqb (a : out_t) (b : option imp_t) : bool :=
   match a, b with
   | (e1, b1, t1, s1), Some ((e2, ea), (b2, ba), t2, s2) =>
